@@ -48,6 +48,15 @@ var ruleO4 = &Rule{
 				for _, e := range x.Edges {
 					mark(e, pos, seen)
 				}
+			case *ssa.Call:
+				// the response is built by a helper: what the helper returns is what is sent
+				if sc := x.Common().StaticCallee(); sc != nil && isModuleFn(sc) {
+					for _, r := range returnsOf(sc) {
+						if len(r.Results) == 1 {
+							mark(r.Results[0], pos, seen)
+						}
+					}
+				}
 			case *ssa.Alloc:
 				// a struct built for sending: what is stored into its fields travels with it
 				if refs := x.Referrers(); refs != nil {
